@@ -218,6 +218,44 @@ package jsonata
 //@   atcall[C03:lazy-then] eval#1 requires ufb_truthy(ret("eval#0", 0)) && callee_node == node.Then
 //@   atcall[C03:lazy-else] eval#2 requires !ufb_truthy(ret("eval#0", 0)) && callee_node == node.Else
 
+// --- C02: predicates -------------------------------------------------------------------------------------------
+// Statement: e[p] evaluates p once per item of e's value (a non-array value counting as a one-item list) with that
+// item as context and keeps, in original order, the items for which p is true under boolean casting; when p yields a
+// number n, or an array consisting only of numbers, it instead keeps the items at positions floor(n), negative
+// positions counting back from the end and out-of-range positions selecting nothing; successive predicates apply to
+// the survivors of the previous one; the filtered list obeys the usual normalisation.
+//
+// applyFilter: one pass over the items. The filter is evaluated with the item as context (call-site clause); an item
+// is kept on a number (array) result exactly when one of the numbers selects its position - the branch `index == i` is
+// equivalent to "floor(n), plus the item count when negative, equals i" (for |n| < 1e18; beyond, never) - and on
+// any other result exactly when its boolean cast is true.
+//@ pred posIndex(n float64, count int) = ifloor(n) < 0 ? ifloor(n) + count : ifloor(n)
+//@ func applyFilter
+//@   props C02 C09
+//@   requires nn(filter) && arrKind(kind(items)) && canif(items)
+//@   ensures [C02:error-propagates] r1 != nil ==> (!valid(r0) && r1 == ret("eval#0", 1))
+//@   ensures [C02:result-is-list] r1 == nil ==> (kind(r0) == 23 && canif(r0))
+//@   assigns heap
+//@   atcall[C02:item-is-context] eval#0 requires callee_node == filter && callee_input == at(items, i)
+//@   atif[C02:position] "index == i" when (n >= -4000000000000000000.0 && n <= 4000000000000000000.0) iff posIndex(n, nItems) == i
+//@   atif[C02:truth] "jlib.Boolean(res)" iff ufb_truthy(res)
+//@   loop 0 invariant 0 <= i && i <= nItems && nItems == rvlen(items) && kind(results) == 23 && canif(results)
+//@   loop 1 invariant 0 <= j && j <= N && N == rvlen(res) && arrKind(kind(res)) && kind(results) == 23 && canif(results) && 0 <= i && i < nItems && nItems == rvlen(items)
+
+// evalPredicate: every filter is applied, in order, by applyFilter to the (arrayified) survivors of the previous one;
+// 'no value' in, or an empty survivor list, is 'no value' out; the result is normalised.
+//@ func evalPredicate
+//@   props C02 C09
+//@   requires node != nil
+//@   preserves node
+//@   ensures [C02:error-propagates] ret("eval#0", 1) != nil ==> (r1 == ret("eval#0", 1) && !valid(r0))
+//@   ensures [C02:missing] (ret("eval#0", 1) == nil && !valid(ret("eval#0", 0))) ==> (r1 == nil && !valid(r0))
+//@   ensures [C02:filter-error] (r1 != nil && ret("eval#0", 1) == nil) ==> (r1 == ret("applyFilter#0", 1) && !valid(r0))
+//@   loop 0 calls [C02:every-filter-applied] applyFilter#0
+//@   atcall[C02:survivors-as-list] applyFilter#0 requires callee_filter == filter && callee_items == ret("arrayify#0", 0)
+//@   atif[C02:empty-is-no-value] "items.Len() == 0" iff rvlen(ret("applyFilter#0", 0)) == 0
+//@   loop 0 invariant -1 <= $i0 && valid(items) && canif(items)
+
 // --- C13: order-by ---------------------------------------------------------------------------------------
 // Statement: items are ordered by their key tuple - each key ascending by default or with <, descending with >,
 // items whose key is absent follow all items that have it, items with equal key tuples keep their input order
